@@ -88,6 +88,7 @@ async def scenario(loop, plan, out):
             for k in ni["link_keys"]]
     children = [zt.EUI64.deserialize(bytes.fromhex(c["ieee"]))[0] for c in ni["children"]]
     nwk_addresses = {zt.EUI64.deserialize(bytes.fromhex(c["ieee"]))[0]: zt.NWK(c["nwk"]) for c in ni["children"] if c["nwk"] is not None}
+    # "unknown" is either zigpy's own constant or an equal value that came from somewhere else (a backup parsed from JSON)
     tc_partner = zt.EUI64.UNKNOWN if ni["tc_addr"] is None else zt.EUI64.deserialize(bytes.fromhex(ni["tc_addr"]))[0]
     stack_specific = {}
     if ni["hashed_tclk"] is not None:
@@ -130,6 +131,15 @@ async def scenario(loop, plan, out):
         return
     out["read"] = app.state.network_info
     out["node"] = app.state.node_info
+    if plan.get("reload"):
+        # the settings are read once more on the same connection (start-up reads them, a backup reads them again)
+        try:
+            await asyncio.wait_for(app.load_network_info(load_devices=True), 5000)
+        except Exception as ex:
+            out["load"] = ex
+            return
+        out["read"] = app.state.network_info
+        out["node"] = app.state.node_info
 
 
 def check(plan) -> Result:
@@ -192,7 +202,7 @@ def check(plan) -> Result:
     cmp("security-state:network-key", hx(isc.networkKey.serialize()), ni["nwk_key"])
     cmp("security-state:network-key-seq", int(isc.networkKeySequenceNumber), ni["nwk_seq"])
     bm = int(isc.bitmask)
-    tc_known = (ni["tc_addr"] is not None) or not rewrote  # without a rewrite bellows substitutes the NCP's own address
+    tc_known = (ni["tc_addr"] not in (None, "ff" * 8)) or not rewrote  # without a rewrite bellows substitutes the NCP's own address
     if bool(bm & 0x0040) != tc_known:
         r.bad("C14:security-state:have-tc-eui64-flag", f"flag {bool(bm & 0x0040)}, trust-centre address known {tc_known}; plan {plan}")
     if ((bm & 0x0084) == 0x0084) != (v > 4):
@@ -229,13 +239,15 @@ def check(plan) -> Result:
         r.cls("ncp-held-an-earlier-network")
     if plan["cap"].get("fw_small"):
         r.cls("firmware-table-sizes-small")
+    if plan.get("reload"):
+        r.cls("read-twice")
     if ni["link_keys"]:
         r.cls("link-keys")
     if ni["children"]:
         r.cls("children")
     if ni["hashed_tclk"] is None:
         r.cls("hashed-tclk-generated")
-    if ni["tc_addr"] is None:
+    if ni["tc_addr"] in (None, "ff" * 8):
         r.cls("tc-address-unknown")
     return r
 
@@ -270,7 +282,7 @@ def plans(draw, versions=tuple(range(4, 15))):
         "hashed_tclk": draw(st.one_of(st.none(), st.binary(min_size=16, max_size=16).map(hx))),
         "link_keys": [{"partner": p, "key": draw(key16)} for p in partners],
         "children": [{"ieee": c, "nwk": draw(st.one_of(st.none(), st.integers(1, 0xFFF7)))} for c in ch_ieee],
-        "tc_addr": draw(st.one_of(st.none(), eui8)),
+        "tc_addr": draw(st.one_of(st.none(), st.just("ff" * 8), eui8)),
     }
     cap = {"nv3": draw(st.booleans()), "mfg": draw(st.sampled_from(["burnable", "burnt", "absent"])), "token_cmds": draw(st.booleans()),
            "key_table": ktab, "nv3_custom": draw(st.sampled_from([None, None, "c1c2c3c4c5c6c7c8", "d1d2d3d4d5d6d7d8"]))}
@@ -281,6 +293,8 @@ def plans(draw, versions=tuple(range(4, 15))):
                         "nkeys": draw(st.integers(0, 3)), "nchildren": draw(st.integers(0, 3)), "up": draw(st.booleans())}
     plan = {"v": v, "net": net, "cap": cap, "node_ieee": draw(st.sampled_from(["same", "other", "other", "unknown"])),
             "allow_burn": draw(st.booleans())}
+    if draw(st.integers(0, 2)) == 0:
+        plan["reload"] = True
     if nkeys >= 2 and draw(st.booleans()):
         plan["erase"] = draw(st.integers(0, nkeys - 2))  # never the last used slot: a hole needs something behind it
     return plan
